@@ -679,6 +679,20 @@ def discharge(fb, body, s):
                 if prove(lin_facts, i.add(Lin(0, {lenatom: 1}), -1).add(Lin(1)), unsigned):
                     return f"index proved < {lenatom} from dominating guards"
             return None
+        if w in ("GenericArray::from(&[T])", "GenericArray::from_slice", "GenericArray::clone_from_slice") and args:
+            n, roots = _arg_place(res, args[0])
+            if n is None:
+                return None
+            lenatom = f"len({n})"
+            res.roots[lenatom] = roots
+            consts = set()
+            for (l, kind, _) in lin_facts:
+                if lenatom in l.t:
+                    consts.add(abs(l.c))
+            for cst in consts:
+                if prove(lin_facts, Lin(-cst, {lenatom: 1}), unsigned) and prove(lin_facts, Lin(cst, {lenatom: -1}), unsigned):
+                    return f"{lenatom} == {cst} proved by a dominating length test"
+            return None
         if w in ("Vec::remove", "Vec::swap_remove") and len(args) >= 2:
             n, roots = _arg_place(res, args[0])
             i = res.lin(args[1])
